@@ -44,10 +44,18 @@ enum Kind {
     Cubic,
     Composite,
     Nested,
+    /// composites whose component 2x2 differs between the masters in exactly one coefficient
+    /// (UFO xScale / xyScale / yxScale / yScale), or in all four
+    XfXX,
+    XfXY,
+    XfYX,
+    XfYY,
+    XfAll,
 }
 
 impl Kind {
     const ALL: [Kind; 5] = [Kind::Line, Kind::Quadratic, Kind::Cubic, Kind::Composite, Kind::Nested];
+    const XFORM: [Kind; 5] = [Kind::XfXX, Kind::XfXY, Kind::XfYX, Kind::XfYY, Kind::XfAll];
     fn name(self) -> &'static str {
         match self {
             Kind::Line => "line",
@@ -55,7 +63,26 @@ impl Kind {
             Kind::Cubic => "cubic",
             Kind::Composite => "composite",
             Kind::Nested => "nested",
+            Kind::XfXX => "xform-xx",
+            Kind::XfXY => "xform-xy",
+            Kind::XfYX => "xform-yx",
+            Kind::XfYY => "xform-yy",
+            Kind::XfAll => "xform-all",
         }
+    }
+    /// which of the four 2x2 coefficients (xform order xx xy yx yy) vary between the masters
+    fn varying(self) -> [bool; 4] {
+        match self {
+            Kind::XfXX => [true, false, false, false],
+            Kind::XfXY => [false, true, false, false],
+            Kind::XfYX => [false, false, true, false],
+            Kind::XfYY => [false, false, false, true],
+            Kind::XfAll => [true; 4],
+            _ => [false; 4],
+        }
+    }
+    fn is_xform(self) -> bool {
+        self.varying().iter().any(|v| *v)
     }
 }
 
@@ -99,20 +126,42 @@ struct Case {
     keep_direction: bool,
     /// axis 0 has a non-linear user->design map (the font gets an avar)
     mapped: bool,
+    /// units per em; the drawings are the 1000-upem drawings scaled by upem/1000 (to half units)
+    #[serde(default = "upem_1000")]
+    upem: u32,
+    /// host (index into `locs`) of every glyph-only layer master; empty = all in the default master
+    #[serde(default)]
+    layer_hosts: Vec<usize>,
+    /// xform kinds: 0 = the component 2x2 is the identity at the default master, 1 = a general one
+    #[serde(default)]
+    xbase: u8,
+}
+
+fn upem_1000() -> u32 {
+    1000
 }
 
 impl Case {
     fn label(&self) -> String {
         let f = |l: &QLoc| l.iter().map(|q| format!("{}", *q as f64 / 4.0)).collect::<Vec<_>>().join(",");
         format!(
-            "n{} masters[{}]{} {} {}{}{}",
+            "n{} masters[{}]{} {} {}{}{}{}{}",
             self.n,
             self.locs.iter().map(f).collect::<Vec<_>>().join(" | "),
-            self.layers.iter().map(|l| format!(" layer[{}]", f(l))).collect::<String>(),
+            self.layers
+                .iter()
+                .enumerate()
+                .map(|(i, l)| match self.layer_hosts.get(i) {
+                    Some(h) if *h != 0 => format!(" layer[{}]@master{h}", f(l)),
+                    _ => format!(" layer[{}]", f(l)),
+                })
+                .collect::<String>(),
             self.kind.name(),
             self.fam.name(),
             if self.keep_direction { " keep-direction" } else { "" },
-            if self.mapped { " mapped-axis" } else { "" }
+            if self.mapped { " mapped-axis" } else { "" },
+            if self.upem != 1000 { format!(" upem{}", self.upem) } else { String::new() },
+            if self.xbase != 0 { " general-base-2x2" } else { "" }
         )
     }
 }
@@ -231,6 +280,37 @@ fn layer_candidates(n: usize, set: &[QLoc]) -> Vec<Vec<QLoc>> {
     c
 }
 
+/// Glyph-only layer masters kept in the UFO (Glyphs: attached to the master) of a NON-default full
+/// master that is off the default on some later axis: the layer master keeps the host's position
+/// on the later axes and moves on axis 0 alone — what a Glyphs brace layer that lists only its
+/// leading coordinates says. (layer location, host index into `locs`)
+fn hosted_layer_candidates(n: usize, locs: &[QLoc]) -> Vec<(QLoc, usize)> {
+    let mut out = vec![];
+    if n < 2 {
+        return out;
+    }
+    for (h, host) in locs.iter().enumerate().skip(1) {
+        if host[1..].iter().all(|v| *v == 0) {
+            continue;
+        }
+        for x in [2i8, -2, 0] {
+            let in_extent = match x {
+                2 => locs.iter().any(|l| l[0] > 0),
+                -2 => locs.iter().any(|l| l[0] < 0),
+                _ => true,
+            };
+            let mut l = host.clone();
+            l[0] = x;
+            if in_extent && !locs.contains(&l) {
+                out.push((l, h));
+            }
+        }
+    }
+    out
+}
+
+const UPEMS: [u32; 2] = [2048, 4096];
+
 fn spaces(tier: Tier) -> (Vec<Case>, Vec<Value>) {
     let mut cases = vec![];
     let mut notes = vec![];
@@ -243,12 +323,25 @@ fn spaces(tier: Tier) -> (Vec<Case>, Vec<Value>) {
     for (n, max_masters) in dims {
         let sets = location_sets(n, max_masters - 1);
         let before = cases.len();
+        let (mut n_upem, mut n_xform, mut n_hosted) = (0usize, 0usize, 0usize);
         for set in &sets {
             let mut locs = vec![vec![0i8; n]];
             locs.extend(set.iter().cloned());
             let mut layers: Vec<Vec<QLoc>> = vec![vec![]];
             layers.extend(layer_candidates(n, set));
             let has_pos0 = set.iter().any(|p| p[0] > 0);
+            let mk = |layers: &Vec<QLoc>, kind: Kind, fam: Fam| Case {
+                n,
+                locs: locs.clone(),
+                layers: layers.clone(),
+                kind,
+                fam,
+                keep_direction: false,
+                mapped: false,
+                upem: 1000,
+                layer_hosts: vec![],
+                xbase: 0,
+            };
             for kind in Kind::ALL {
                 for fam in Fam::ALL {
                     for (li, layer) in layers.iter().enumerate() {
@@ -258,23 +351,67 @@ fn spaces(tier: Tier) -> (Vec<Case>, Vec<Value>) {
                         if n == 3 && locs.len() == 5 && li > 1 {
                             continue; // the largest 3-axis sets: no layer master / the on-axis one
                         }
-                        cases.push(Case { n, locs: locs.clone(), layers: layer.clone(), kind, fam, keep_direction: false, mapped: false });
+                        cases.push(mk(layer, kind, fam));
                     }
                     // keep-direction: the sub-space of small sets without a layer master
                     if locs.len() <= 3 {
-                        cases.push(Case { n, locs: locs.clone(), layers: vec![], kind, fam, keep_direction: true, mapped: false });
+                        cases.push(Case { keep_direction: true, ..mk(&vec![], kind, fam) });
                     }
                 }
                 // a non-linear axis map (avar): line and composite glyphs, all-move family
                 if has_pos0 && locs.len() <= 3 && matches!(kind, Kind::Line | Kind::Composite) {
                     for layer in &layers[..2] {
-                        cases.push(Case { n, locs: locs.clone(), layers: layer.clone(), kind, fam: Fam::AllMove, keep_direction: false, mapped: true });
+                        cases.push(Case { mapped: true, ..mk(layer, kind, Fam::AllMove) });
+                    }
+                }
+            }
+            // the largest 3-axis sets stay with the 1000-upem / identity-2x2 / default-host space
+            let small = n < 3 || locs.len() <= 4;
+            // units per em: the simple kinds with the families in which IUP infers deltas
+            // (and the all-move family: every delta explicit), no layer master / the first one
+            if small {
+                for upem in UPEMS {
+                    for kind in [Kind::Line, Kind::Quadratic, Kind::Cubic] {
+                        for fam in [Fam::SomeStatic, Fam::Scale, Fam::AllMove] {
+                            for layer in &layers[..2] {
+                                cases.push(Case { upem, ..mk(layer, kind, fam) });
+                                n_upem += 1;
+                            }
+                        }
+                    }
+                }
+            }
+            // component 2x2 varying between the masters in one coefficient / in all; dyadic
+            // drawings only (the three displacement families), so that the transformed
+            // coordinates are exact in binary floating point whatever the order of operations
+            if small {
+                for kind in Kind::XFORM {
+                    for fam in [Fam::AllMove, Fam::SomeStatic, Fam::OneContour] {
+                        for xbase in [0u8, 1] {
+                            for layer in &layers[..2] {
+                                cases.push(Case { xbase, ..mk(layer, kind, fam) });
+                                n_xform += 1;
+                            }
+                        }
+                    }
+                }
+            }
+            // a layer master hosted by a non-default master
+            if small {
+                for (l, h) in hosted_layer_candidates(n, &locs) {
+                    for kind in Kind::ALL {
+                        for fam in [Fam::AllMove, Fam::Scale] {
+                            cases.push(Case { layer_hosts: vec![h], ..mk(&vec![l.clone()], kind, fam) });
+                            n_hosted += 1;
+                        }
                     }
                 }
             }
         }
         notes.push(json!({
             "axes": n, "max_masters": max_masters, "location_sets": sets.len(), "designs": cases.len() - before,
+            "of_which_upem_2048_4096": n_upem, "of_which_varying_component_2x2": n_xform,
+            "of_which_layer_master_hosted_by_a_non_default_master": n_hosted,
         }));
     }
     (cases, notes)
@@ -375,7 +512,14 @@ fn disp(fam: Fam, c: usize, i: usize, npts: usize, m: usize) -> (f64, f64) {
     }
 }
 
-fn drawing(s: Shape, fam: Fam, m: usize) -> Vec<Contour> {
+/// A 1000-upem coordinate in the em of the case: unchanged at 1000 upem, else scaled by upem/1000
+/// and taken to the nearest half unit (so that .5 fractions, the rounding boundary, keep occurring
+/// and every source coordinate is exact in binary).
+fn em(v: f64, scale: f64) -> f64 {
+    if scale == 1.0 { v } else { (v * scale * 2.0).round() / 2.0 }
+}
+
+fn drawing(s: Shape, fam: Fam, m: usize, scale: f64) -> Vec<Contour> {
     base_shape(s)
         .iter()
         .enumerate()
@@ -384,10 +528,13 @@ fn drawing(s: Shape, fam: Fam, m: usize) -> Vec<Contour> {
             shapes::map_contour(ct, |i, x, y| {
                 if fam == Fam::Scale {
                     let k = m as f64;
-                    return (x * (1.0 + 0.03 * k) + if m > 0 { 7.0 * k + 0.5 } else { 0.0 }, y * (1.0 - 0.02 * k) - 4.0 * k);
+                    return (
+                        em(x * (1.0 + 0.03 * k) + if m > 0 { 7.0 * k + 0.5 } else { 0.0 }, scale),
+                        em(y * (1.0 - 0.02 * k) - 4.0 * k, scale),
+                    );
                 }
                 let (dx, dy) = disp(fam, c, i, n, m);
-                (x + dx, y + dy)
+                (em(x + dx, scale), em(y + dy, scale))
             })
         })
         .collect()
@@ -401,6 +548,18 @@ fn off2(m: usize) -> (f64, f64) {
 }
 fn off3(m: usize) -> (f64, f64) {
     (10.0 + 5.5 * m as f64, -3.0 * m as f64)
+}
+
+/// The 2x2 (xform order: xx xy yx yy) of the varying component at master `m`: the base matrix,
+/// with the varying coefficients moved by a master-dependent dyadic amount. Every third master
+/// keeps the default's matrix (a sparse glyph on the default and such masters only has a
+/// consistent 2x2 and stays a composite). All values stay inside (-2, 2) and are multiples of 1/32.
+fn xform_2x2(kind: Kind, xbase: u8, m: usize) -> [f64; 4] {
+    let base = if xbase == 0 { [1.0, 0.0, 0.0, 1.0] } else { [1.25, 0.25, -0.125, 0.75] };
+    const STEP: [f64; 4] = [0.0625, 0.0625, -0.03125, 0.125];
+    let w = if m % 3 == 2 { 0.0 } else { m as f64 };
+    let v = kind.varying();
+    std::array::from_fn(|i| base[i] + if v[i] { STEP[i] * w } else { 0.0 })
 }
 
 fn build(case: &Case) -> (Design, fcx::Opts) {
@@ -425,21 +584,36 @@ fn build(case: &Case) -> (Design, fcx::Opts) {
     let dloc = |l: &QLoc| -> Vec<f64> { l.iter().map(|q| q_to_design(*q)).collect() };
     let mut d = Design::skeleton("C03", axes, case.locs.iter().map(dloc).collect());
     assert_eq!(d.default_master, 0);
-    for l in &case.layers {
-        d.add_layer_master(0, dloc(l));
+    d.upem = case.upem;
+    let scale = case.upem as f64 / 1000.0;
+    if scale != 1.0 {
+        for m in d.masters.iter_mut() {
+            m.info.ascender = em(m.info.ascender, scale);
+            m.info.descender = em(m.info.descender, scale);
+            m.info.x_height = em(m.info.x_height, scale);
+            m.info.cap_height = em(m.info.cap_height, scale);
+        }
+    }
+    for (i, l) in case.layers.iter().enumerate() {
+        d.add_layer_master(case.layer_hosts.get(i).copied().unwrap_or(0), dloc(l));
     }
     let nm = d.masters.len();
     let simple = |name: &str, s: Shape, on: &[usize]| -> Glyph {
         let mut g = Glyph::new(name, &[]);
         for &m in on {
-            g.layers.insert(m, Layer { advance: 800.0 + 10.0 * m as f64, contours: drawing(s, case.fam, m), ..Default::default() });
+            g.layers.insert(m, Layer { advance: em(800.0 + 10.0 * m as f64, scale), contours: drawing(s, case.fam, m, scale), ..Default::default() });
         }
         g
     };
     let composite = |name: &str, on: &[usize], comps: &dyn Fn(usize) -> Vec<Component>| -> Glyph {
         let mut g = Glyph::new(name, &[]);
         for &m in on {
-            g.layers.insert(m, Layer { advance: 800.0 + 10.0 * m as f64, components: comps(m), ..Default::default() });
+            let mut c = comps(m);
+            for k in c.iter_mut() {
+                k.xform[4] = em(k.xform[4], scale);
+                k.xform[5] = em(k.xform[5], scale);
+            }
+            g.layers.insert(m, Layer { advance: em(800.0 + 10.0 * m as f64, scale), components: c, ..Default::default() });
         }
         g
     };
@@ -474,6 +648,25 @@ fn build(case: &Case) -> (Design, fcx::Opts) {
                 d.glyphs.push(composite(&format!("s{mask}"), on, &|m| {
                     let ((x1, y1), (x2, y2)) = (off1(m), off2(m));
                     vec![Component::at(b1, x1, y1), Component::at(b2, x2, y2)]
+                }));
+            }
+        }
+        Kind::XfXX | Kind::XfXY | Kind::XfYX | Kind::XfYY | Kind::XfAll => {
+            d.glyphs.push(simple("Btri", Shape::Line, &all));
+            d.glyphs.push(simple("Bquad", Shape::Quad, &all));
+            d.glyphs.push(simple("Bcub", Shape::Cubic, &all));
+            for (mask, on) in &subsets {
+                // (a cubic contour makes the whole glyph a curve comparison: only with the cubic base)
+                let (b1, b2) = (bases[mask % 3], ["Bquad", "Btri", "Btri"][mask % 3]);
+                d.glyphs.push(composite(&format!("s{mask}"), on, &|m| {
+                    let ((x1, y1), (x2, y2)) = (off1(m), off2(m));
+                    let [xx, xy, yx, yy] = xform_2x2(case.kind, case.xbase, m);
+                    let mut v = vec![Component { base: b1.into(), xform: [xx, xy, yx, yy, x1, y1] }];
+                    // every other glyph: a second component with the identity 2x2
+                    if mask % 2 == 1 {
+                        v.push(Component::at(b2, x2, y2));
+                    }
+                    v
                 }));
             }
         }
@@ -805,6 +998,57 @@ fn hausdorff(a: &[P2], b: &[P2], allow: f64) -> f64 {
 /// 200-unit-radius arc is < 0.07
 const SAMPLING_EPS: f64 = 0.15;
 
+/// the sagitta grows with the em (the drawings are scaled by upem/1000)
+fn sampling_eps(upem: f64) -> f64 {
+    SAMPLING_EPS * (upem / 1000.0).max(1.0)
+}
+
+/// Which 2x2 coefficients (xform order xx xy yx yy) of some component differ between the layers
+/// of a composite glyph; `None` when the layers do not even agree on the component bases.
+fn varying_2x2(g: &Glyph) -> Option<[bool; 4]> {
+    let mut it = g.layers.values();
+    let first = it.next()?;
+    let mut v = [false; 4];
+    for l in it {
+        if l.components.len() != first.components.len() {
+            return None;
+        }
+        for (a, b) in first.components.iter().zip(&l.components) {
+            if a.base != b.base {
+                return None;
+            }
+            for i in 0..4 {
+                v[i] |= a.xform[i] != b.xform[i];
+            }
+        }
+    }
+    Some(v)
+}
+
+/// The drawing of layer `m` of `g` with every component replaced by the base glyph's drawing at
+/// the same master under the component's transform (UFO: x' = xx*x + yx*y + dx, y' = xy*x + yy*y + dy),
+/// components in order, own contours first. `None` when a base has no drawing at `m` (the
+/// compiler then interpolates one: not asserted here) or the 2x2 reverses the orientation.
+fn resolve_layer(d: &Design, g: &Glyph, m: usize, depth: usize) -> Option<Vec<Contour>> {
+    let l = g.layers.get(&m)?;
+    let mut out = l.contours.clone();
+    for c in &l.components {
+        if depth > 6 {
+            return None;
+        }
+        let base = d.glyph(&c.base)?;
+        let bc = resolve_layer(d, base, m, depth + 1)?;
+        let [xx, xy, yx, yy, dx, dy] = c.xform;
+        if xx * yy - xy * yx <= 0.0 {
+            return None;
+        }
+        for ct in &bc {
+            out.push(shapes::map_contour(ct, |_, x, y| (xx * x + yx * y + dx, xy * x + yy * y + dy)));
+        }
+    }
+    Some(out)
+}
+
 macro_rules! stats {
     (sum: $($s:ident),* ; max: $($m:ident),* $(,)?) => {
         #[derive(Clone, Debug, Default, Serialize)]
@@ -827,7 +1071,22 @@ stats! {
         designs_with_composites, designs_with_nested_composites, designs_with_layer_master, designs_with_avar,
         designs_keep_direction, comparisons_with_iup_allowance, glyphs_sparse, glyphs_with_fractional_master_scalar, iup_omitted_points,
         gvar_tuples, gvar_intermediate_tuples, locations_off_master_by_quantisation, skrifa_crosschecks,
-        static_compiles, cpu_ms_write_and_compile, cpu_ms_judge, designs_skipped_by_time_cap;
+        static_compiles, cpu_ms_write_and_compile, cpu_ms_judge, designs_skipped_by_time_cap,
+        // units per em
+        fonts_upem_1000, fonts_upem_2048, fonts_upem_4096,
+        comparisons_with_iup_allowance_upem_1000, comparisons_with_iup_allowance_upem_2048, comparisons_with_iup_allowance_upem_4096,
+        iup_omitted_points_upem_1000, iup_omitted_points_upem_2048, iup_omitted_points_upem_4096,
+        comparisons_two_or_more_tuples_active_with_iup_upem_2048, comparisons_two_or_more_tuples_active_with_iup_upem_4096,
+        // source routes
+        fonts_ufo_route, fonts_glyphs_route, fonts_glyphs_route_partial_coordinates, designs_not_representable_in_glyphs,
+        brace_layers_written, brace_layers_with_partial_coordinates, brace_layers_with_partial_coordinates_host_off_default,
+        comparisons_at_brace_layer_with_partial_coordinates, comparisons_at_brace_layer_with_partial_coordinates_host_off_default,
+        comparisons_at_layer_master_of_non_default_host,
+        // component 2x2
+        glyphs_expected_decomposed_for_varying_2x2, glyphs_not_asserted_unresolvable_component,
+        comparisons_2x2_varies_xx_only, comparisons_2x2_varies_xy_only, comparisons_2x2_varies_yx_only,
+        comparisons_2x2_varies_yy_only, comparisons_2x2_varies_all_four, comparisons_2x2_varies_other,
+        comparisons_2x2_varies_general_base, comparisons_composite_kept_with_non_identity_2x2;
     // max_err_over_bound: largest |font - source| / bound over all non-default point comparisons
     max: max_err_over_bound, max_err, max_bound, max_cubic_dist, max_cubic_dist_over_bound,
         max_static_dist_over_bound
@@ -847,11 +1106,59 @@ enum Outcome {
     Judged(Vec<Finding>),
 }
 
-fn compile_design(d: &Design, opts: &fcx::Opts) -> Result<Vec<u8>, fcx::Failure> {
+/// How the design reaches the compiler.
+#[derive(Clone, Copy, Debug, Default, PartialEq, Eq, Serialize, Deserialize)]
+enum Route {
+    /// designspace + UFOs
+    #[default]
+    Ufo,
+    /// one Glyphs 3 file; layer masters are brace layers that spell out every coordinate
+    Glyphs3,
+    /// the same, brace layers listing only their leading coordinates where the rest is the
+    /// associated master's
+    Glyphs3Partial,
+}
+
+impl Route {
+    fn name(self) -> &'static str {
+        match self {
+            Route::Ufo => "ufo",
+            Route::Glyphs3 => "glyphs3",
+            Route::Glyphs3Partial => "glyphs3-partial-brace-coordinates",
+        }
+    }
+    fn g3opts(self) -> dgen::glyphs::G3Opts {
+        dgen::glyphs::G3Opts { brace_partial_coordinates: self == Route::Glyphs3Partial }
+    }
+}
+
+/// layer masters whose brace layer loses coordinates under the partial spelling
+fn partial_layers(d: &Design) -> Vec<usize> {
+    let o = Route::Glyphs3Partial.g3opts();
+    (0..d.masters.len())
+        .filter(|m| matches!(d.masters[*m].kind, dgen::MasterKind::LayerOf(_)) && d.brace_coordinates(*m, &o).len() < d.axes.len())
+        .collect()
+}
+
+/// the routes a design is compiled through (the UFO route always)
+fn routes_of(d: &Design) -> Vec<Route> {
+    let mut r = vec![Route::Ufo];
+    if d.glyphs_unrepresentable().is_empty() {
+        r.push(Route::Glyphs3);
+        if !partial_layers(d).is_empty() {
+            r.push(Route::Glyphs3Partial);
+        }
+    }
+    r
+}
+
+fn compile_design(d: &Design, opts: &fcx::Opts, route: Route) -> Result<Vec<u8>, fcx::Failure> {
     let sc = vcore::Scratch::new("c03");
-    let path = d
-        .write_designspace(sc.path())
-        .unwrap_or_else(|e| vcore::machinery_error(&format!("writing the designspace: {e}")));
+    let path = match route {
+        Route::Ufo => d.write_designspace(sc.path()),
+        _ => d.write_glyphs3_with(sc.path(), &route.g3opts()),
+    }
+    .unwrap_or_else(|e| vcore::machinery_error(&format!("writing the source ({}): {e}", route.name())));
     fcx::compile(&path, opts, None)
 }
 
@@ -881,10 +1188,12 @@ fn source_json(l: &Layer) -> Value {
     })
 }
 
-fn judge(d: &Design, opts: &fcx::Opts, xcheck: bool, vs_static: bool, st: &mut Stats) -> Outcome {
-    st.designs += 1;
+fn judge(d: &Design, opts: &fcx::Opts, route: Route, xcheck: bool, vs_static: bool, st: &mut Stats) -> Outcome {
+    if route == Route::Ufo {
+        st.designs += 1;
+    }
     let t0 = std::time::Instant::now();
-    let compiled = compile_design(d, opts);
+    let compiled = compile_design(d, opts, route);
     st.cpu_ms_write_and_compile += t0.elapsed().as_millis() as u64;
     let bytes = match compiled {
         Ok(b) => b,
@@ -898,14 +1207,22 @@ fn judge(d: &Design, opts: &fcx::Opts, xcheck: bool, vs_static: bool, st: &mut S
         }
     };
     st.compiled += 1;
+    match route {
+        Route::Ufo => st.fonts_ufo_route += 1,
+        Route::Glyphs3 => st.fonts_glyphs_route += 1,
+        Route::Glyphs3Partial => {
+            st.fonts_glyphs_route += 1;
+            st.fonts_glyphs_route_partial_coordinates += 1;
+        }
+    }
     let t1 = std::time::Instant::now();
-    let f = judge_font(d, opts, &bytes, xcheck, vs_static, st);
+    let f = judge_font(d, opts, route, &bytes, xcheck, vs_static, st);
     st.cpu_ms_judge += t1.elapsed().as_millis() as u64;
     Outcome::Judged(f)
 }
 
 /// Judge a compiled font against the drawings of `d`.
-fn judge_font(d: &Design, opts: &fcx::Opts, bytes: &[u8], xcheck: bool, vs_static: bool, st: &mut Stats) -> Vec<Finding> {
+fn judge_font(d: &Design, opts: &fcx::Opts, route: Route, bytes: &[u8], xcheck: bool, vs_static: bool, st: &mut Stats) -> Vec<Finding> {
     let mut findings = vec![];
     let vf = match VFont::new(bytes) {
         Ok(v) => v,
@@ -951,6 +1268,41 @@ fn judge_font(d: &Design, opts: &fcx::Opts, bytes: &[u8], xcheck: bool, vs_stati
         st.designs_with_avar += 1;
     }
 
+    // brace layers of the Glyphs routes
+    let host_of = |m: usize| match d.masters[m].kind {
+        dgen::MasterKind::LayerOf(h) => Some(h),
+        _ => None,
+    };
+    let partial: Vec<usize> = if route == Route::Glyphs3Partial { partial_layers(d) } else { vec![] };
+    // a partial brace layer whose omitted axes are NOT at the default in its host master
+    let host_off_default = |m: usize| -> bool {
+        let kept = d.brace_coordinates(m, &route.g3opts()).len();
+        let h = host_of(m).unwrap();
+        (kept..d.axes.len()).any(|a| d.masters[h].loc[a] != d.masters[d.default_master].loc[a])
+    };
+    if route != Route::Ufo {
+        for g in &d.glyphs {
+            for &m in g.layers.keys() {
+                if host_of(m).is_some() {
+                    st.brace_layers_written += 1;
+                    if partial.contains(&m) {
+                        st.brace_layers_with_partial_coordinates += 1;
+                        if host_off_default(m) {
+                            st.brace_layers_with_partial_coordinates_host_off_default += 1;
+                        }
+                    }
+                }
+            }
+        }
+    }
+    match d.upem {
+        1000 => st.fonts_upem_1000 += 1,
+        2048 => st.fonts_upem_2048 += 1,
+        4096 => st.fonts_upem_4096 += 1,
+        _ => {}
+    }
+    let (mut iup_omitted_here, mut iup_allow_here, mut iup_multi_here) = (0u64, 0u64, 0u64);
+
     let mut any_intermediate = false;
     let mut any_sparse = false;
     let mut any_omitted = false;
@@ -964,9 +1316,43 @@ fn judge_font(d: &Design, opts: &fcx::Opts, bytes: &[u8], xcheck: bool, vs_stati
         .map(|g| g.name.clone())
         .collect();
 
-    for g in &d.glyphs {
-        if !g.export {
+    for g_src in &d.glyphs {
+        if !g_src.export {
             continue;
+        }
+        // A composite whose component 2x2 is not the same in all of its masters cannot stay a
+        // composite (glyf holds one 2x2, gvar varies offsets only): the outline of each master is
+        // the source's own resolution of that master, and the font must hold a simple glyph.
+        let resolved: Glyph;
+        let mut g = g_src;
+        let mut varies: Option<[bool; 4]> = None;
+        if g_src.layers.values().all(|l| !l.components.is_empty() && l.contours.is_empty()) {
+            match varying_2x2(g_src) {
+                Some(v) if v.iter().any(|b| *b) => {
+                    let layers: Option<BTreeMap<usize, Layer>> = g_src
+                        .layers
+                        .iter()
+                        .map(|(&m, l)| resolve_layer(d, g_src, m, 0).map(|c| (m, Layer { advance: l.advance, height: l.height, contours: c, ..Default::default() })))
+                        .collect();
+                    match layers {
+                        Some(layers) => {
+                            resolved = Glyph { layers, ..g_src.clone() };
+                            g = &resolved;
+                            varies = Some(v);
+                            st.glyphs_expected_decomposed_for_varying_2x2 += 1;
+                        }
+                        None => {
+                            st.glyphs_not_asserted_unresolvable_component += 1;
+                            continue;
+                        }
+                    }
+                }
+                Some(_) => {}
+                None => {
+                    st.glyphs_not_asserted_unresolvable_component += 1;
+                    continue;
+                }
+            }
         }
         let Some(gid) = names.iter().position(|n| *n == g.name).map(|i| i as u16) else {
             findings.push(Finding { class: "structure", what: format!("glyph {} is not in the font (post names {names:?})", g.name), detail: json!({"glyph": g.name}) });
@@ -976,6 +1362,7 @@ fn judge_font(d: &Design, opts: &fcx::Opts, bytes: &[u8], xcheck: bool, vs_stati
         st.gvar_tuples += gs.tuples as u64;
         st.gvar_intermediate_tuples += gs.intermediate as u64;
         st.iup_omitted_points += gs.points_omitted as u64;
+        iup_omitted_here += gs.points_omitted as u64;
         any_intermediate |= gs.intermediate > 0;
         any_omitted |= gs.points_omitted > 0;
         if g.layers.len() > 1 && g.layers.len() < nm {
@@ -1033,6 +1420,10 @@ fn judge_font(d: &Design, opts: &fcx::Opts, bytes: &[u8], xcheck: bool, vs_stati
                     }
                     if pb.iter().any(|b| *b > 0.5 + slack + 1e-6) {
                         st.comparisons_with_iup_allowance += 1;
+                        iup_allow_here += 1;
+                        if i.tuple_scalars.iter().filter(|s| **s != 0.0).count() >= 2 {
+                            iup_multi_here += 1;
+                        }
                     }
                     st.comparisons += 1;
                     if m != d.default_master {
@@ -1041,8 +1432,31 @@ fn judge_font(d: &Design, opts: &fcx::Opts, bytes: &[u8], xcheck: bool, vs_stati
                             st.comparisons_active_variation += 1;
                         }
                     }
-                    if matches!(d.masters[m].kind, dgen::MasterKind::LayerOf(_)) {
+                    if let Some(h) = host_of(m) {
                         st.comparisons_at_layer_master += 1;
+                        if h != d.default_master {
+                            st.comparisons_at_layer_master_of_non_default_host += 1;
+                        }
+                        if partial.contains(&m) {
+                            st.comparisons_at_brace_layer_with_partial_coordinates += 1;
+                            if host_off_default(m) {
+                                st.comparisons_at_brace_layer_with_partial_coordinates_host_off_default += 1;
+                            }
+                        }
+                    }
+                    if let Some(v) = varies {
+                        match v {
+                            [true, false, false, false] => st.comparisons_2x2_varies_xx_only += 1,
+                            [false, true, false, false] => st.comparisons_2x2_varies_xy_only += 1,
+                            [false, false, true, false] => st.comparisons_2x2_varies_yx_only += 1,
+                            [false, false, false, true] => st.comparisons_2x2_varies_yy_only += 1,
+                            [true, true, true, true] => st.comparisons_2x2_varies_all_four += 1,
+                            _ => st.comparisons_2x2_varies_other += 1,
+                        }
+                        let c0 = &g_src.layers[&d.default_master].components[0].xform;
+                        if c0[..4] != [1.0, 0.0, 0.0, 1.0] {
+                            st.comparisons_2x2_varies_general_base += 1;
+                        }
                     }
                     pbound.insert(m, pb);
                     slacks.insert(m, slack);
@@ -1094,13 +1508,20 @@ fn judge_font(d: &Design, opts: &fcx::Opts, bytes: &[u8], xcheck: bool, vs_stati
                 let b = if m == d.default_master { 0.0 } else { 0.5 + slacks[&m] + 1e-6 };
                 for (ci, (fc, sc)) in components.iter().zip(&layer.components).enumerate() {
                     let base_gid = names.iter().position(|n| *n == sc.base);
-                    if base_gid != Some(fc.gid as usize) || (fc.xx, fc.xy, fc.yx, fc.yy) != (1.0, 0.0, 0.0, 1.0) {
+                    // the 2x2 is the same in every master of the glyph here and F2Dot14-exact:
+                    // the font's (otvar: x' = xx*x + xy*y, y' = yx*x + yy*y) is the source's
+                    // (UFO: x' = xScale*x + yxScale*y, y' = xyScale*x + yScale*y)
+                    let [sxx, sxy, syx, syy, _, _] = sc.xform;
+                    if base_gid != Some(fc.gid as usize) || (fc.xx, fc.yx, fc.xy, fc.yy) != (sxx, sxy, syx, syy) {
                         findings.push(Finding {
                             class: "structure",
-                            what: format!("glyph {} component {ci}: font refers to gid {} with 2x2 ({},{},{},{}), source to {} (gid {base_gid:?}) with the identity", g.name, fc.gid, fc.xx, fc.xy, fc.yx, fc.yy, sc.base),
+                            what: format!("glyph {} component {ci}: font refers to gid {} with 2x2 (xscale {}, scale01 {}, scale10 {}, yscale {}), source to {} (gid {base_gid:?}) with (xScale {sxx}, xyScale {sxy}, yxScale {syx}, yScale {syy})", g.name, fc.gid, fc.xx, fc.yx, fc.xy, fc.yy, sc.base),
                             detail: detail(m, Value::Null),
                         });
                         continue;
+                    }
+                    if (sxx, sxy, syx, syy) != (1.0, 0.0, 0.0, 1.0) {
+                        st.comparisons_composite_kept_with_non_identity_2x2 += 1;
                     }
                     if d.glyph(&sc.base).is_some_and(|b| b.layers.values().any(|l| !l.components.is_empty())) {
                         any_nested = true;
@@ -1152,7 +1573,7 @@ fn judge_font(d: &Design, opts: &fcx::Opts, bytes: &[u8], xcheck: bool, vs_stati
             for (&m, layer) in &g.layers {
                 st.comparisons_cubic += 1;
                 let b = pbound[&m].iter().cloned().fold(0.0, f64::max);
-                let allow = cu2qu_tol + std::f64::consts::SQRT_2 * (0.5 + b) + SAMPLING_EPS;
+                let allow = cu2qu_tol + std::f64::consts::SQRT_2 * (0.5 + b) + sampling_eps(upem);
                 for (ci, sc) in layer.contours.iter().enumerate() {
                     let Some(src) = flatten_source(sc) else { continue };
                     let fnt = flatten_font(&font_contours[&m][ci]);
@@ -1194,7 +1615,7 @@ fn judge_font(d: &Design, opts: &fcx::Opts, bytes: &[u8], xcheck: bool, vs_stati
                     });
                     continue;
                 }
-                let allow = 2.0 * cu2qu_tol + std::f64::consts::SQRT_2 * (1.0 + b) + SAMPLING_EPS;
+                let allow = 2.0 * cu2qu_tol + std::f64::consts::SQRT_2 * (1.0 + b) + sampling_eps(upem);
                 for ci in 0..sct.len() {
                     let dist = hausdorff(&flatten_font(&font_contours[&m][ci]), &flatten_font(&sct[ci]), allow);
                     st.max_static_dist_over_bound = st.max_static_dist_over_bound.max(dist / allow);
@@ -1307,13 +1728,32 @@ fn judge_font(d: &Design, opts: &fcx::Opts, bytes: &[u8], xcheck: bool, vs_stati
             }
         }
     }
-    st.designs_with_intermediate_region += any_intermediate as u64;
-    st.designs_with_sparse_submodel += any_sparse as u64;
-    st.designs_with_iup_omitted_points += any_omitted as u64;
-    st.designs_with_composites += any_composite as u64;
-    st.designs_with_nested_composites += any_nested as u64;
-    st.designs_with_layer_master += d.masters.iter().any(|m| matches!(m.kind, dgen::MasterKind::LayerOf(_))) as u64;
-    st.designs_keep_direction += opts.keep_direction as u64;
+    match d.upem {
+        1000 => {
+            st.iup_omitted_points_upem_1000 += iup_omitted_here;
+            st.comparisons_with_iup_allowance_upem_1000 += iup_allow_here;
+        }
+        2048 => {
+            st.iup_omitted_points_upem_2048 += iup_omitted_here;
+            st.comparisons_with_iup_allowance_upem_2048 += iup_allow_here;
+            st.comparisons_two_or_more_tuples_active_with_iup_upem_2048 += iup_multi_here;
+        }
+        4096 => {
+            st.iup_omitted_points_upem_4096 += iup_omitted_here;
+            st.comparisons_with_iup_allowance_upem_4096 += iup_allow_here;
+            st.comparisons_two_or_more_tuples_active_with_iup_upem_4096 += iup_multi_here;
+        }
+        _ => {}
+    }
+    if route == Route::Ufo {
+        st.designs_with_intermediate_region += any_intermediate as u64;
+        st.designs_with_sparse_submodel += any_sparse as u64;
+        st.designs_with_iup_omitted_points += any_omitted as u64;
+        st.designs_with_composites += any_composite as u64;
+        st.designs_with_nested_composites += any_nested as u64;
+        st.designs_with_layer_master += d.masters.iter().any(|m| matches!(m.kind, dgen::MasterKind::LayerOf(_))) as u64;
+        st.designs_keep_direction += opts.keep_direction as u64;
+    }
     findings
 }
 
@@ -1331,22 +1771,33 @@ fn crosscheck(bytes: &[u8], gid: u16, coords: &[f64], name: &str, st: &mut Stats
 /// Sensitivity of the oracle: compile a design, then judge the font against a design whose
 /// expectation was falsified in one small way. Every falsification must be reported.
 fn selftest() -> ! {
-    let mk = |kind, fam, layers: Vec<QLoc>| Case { n: 2, locs: vec![vec![0, 0], vec![4, 0], vec![0, 4], vec![4, 4]], layers, kind, fam, keep_direction: false, mapped: false };
+    let mk = |kind, fam, layers: Vec<QLoc>| Case { n: 2, locs: vec![vec![0, 0], vec![4, 0], vec![0, 4], vec![4, 4]], layers, kind, fam, keep_direction: false, mapped: false, upem: 1000, layer_hosts: vec![], xbase: 0 };
     let mut failures = 0;
-    let mut run = |name: &str, case: &Case, falsify: &dyn Fn(&mut Design), want: &str| {
+    let mut run_on = |name: &str, case: &Case, route: Route, falsify: &dyn Fn(&mut Design), want: &str| {
         let (d, opts) = build(case);
-        let bytes = compile_design(&d, &opts).unwrap_or_else(|e| vcore::machinery_error(&format!("selftest compile: {e:?}")));
+        let bytes = compile_design(&d, &opts, route).unwrap_or_else(|e| vcore::machinery_error(&format!("selftest compile: {e:?}")));
         let mut st = Stats::default();
-        let clean = judge_font(&d, &opts, &bytes, false, true, &mut st);
+        let clean = judge_font(&d, &opts, route, &bytes, false, true, &mut st);
         let mut bad = d.clone();
         falsify(&mut bad);
-        let f = judge_font(&bad, &opts, &bytes, false, true, &mut st);
+        let f = judge_font(&bad, &opts, route, &bytes, false, true, &mut st);
         let hit = f.iter().any(|x| x.class == want);
         println!("selftest {name}: clean findings {}, falsified findings {} ({}) -> {}", clean.len(), f.len(), f.first().map(|x| x.what.as_str()).unwrap_or("-"), if hit && clean.is_empty() { "ok" } else { "MISSED" });
         if !hit || !clean.is_empty() {
             failures += 1;
         }
     };
+    // the new dimensions: units per em, the Glyphs route with a partially spelled brace layer,
+    // a component 2x2 that varies in one coefficient
+    run_on("upem 4096 line/scale: one point of master 3 moved by 2.5", &Case { upem: 4096, ..mk(Kind::Line, Fam::Scale, vec![]) }, Route::Ufo, &|d| d.glyphs[7].layers.get_mut(&3).unwrap().contours[1].points[5].y -= 2.5, "coordinate");
+    run_on("glyphs3, brace layer (0.5) of master (0,1) written as one coordinate: expected at the default's second coordinate instead", &Case { layer_hosts: vec![2], ..mk(Kind::Line, Fam::AllMove, vec![vec![2, 4]]) }, Route::Glyphs3Partial, &|d| {
+        // what a reader that ignores the associated master would build: the drawing is where (0.5, 0) is
+        let v = d.masters[0].loc[1];
+        d.masters[4].loc[1] = v;
+    }, "coordinate");
+    run_on("xform-yy: yScale of master 1 not applied in the expectation", &mk(Kind::XfYY, Fam::AllMove, vec![]), Route::Ufo, &|d| d.glyphs.last_mut().unwrap().layers.get_mut(&1).unwrap().components[0].xform[3] = 1.0, "coordinate");
+    run_on("xform-xy: xyScale of master 3 doubled in the expectation", &mk(Kind::XfXY, Fam::SomeStatic, vec![]), Route::Ufo, &|d| d.glyphs.last_mut().unwrap().layers.get_mut(&3).unwrap().components[0].xform[1] *= 2.0, "coordinate");
+    let mut run = |name: &str, case: &Case, falsify: &dyn Fn(&mut Design), want: &str| run_on(name, case, Route::Ufo, falsify, want);
     // one coordinate of one non-default master off by 1.5 units
     run("line: one point of master 2 moved by 1.5", &mk(Kind::Line, Fam::AllMove, vec![]), &|d| d.glyphs[7].layers.get_mut(&2).unwrap().contours[0].points[1].x += 1.5, "coordinate");
     // with IUP in play (scale family): a point moved by 2 units
@@ -1388,9 +1839,10 @@ fn replay(path: &std::path::Path) -> ! {
     let r = v.get("replay").cloned().unwrap_or(v);
     let d: Design = serde_json::from_value(r["design"].clone()).unwrap_or_else(|e| vcore::machinery_error(&format!("design: {e}")));
     let opts: fcx::Opts = serde_json::from_value(r["opts"].clone()).unwrap_or_else(|e| vcore::machinery_error(&format!("opts: {e}")));
-    println!("case: {}", r["label"].as_str().unwrap_or("?"));
+    let route: Route = r.get("route").and_then(|v| serde_json::from_value(v.clone()).ok()).unwrap_or_default();
+    println!("case: {} (source route: {})", r["label"].as_str().unwrap_or("?"), route.name());
     let mut st = Stats::default();
-    let out = judge(&d, &opts, true, true, &mut st);
+    let out = judge(&d, &opts, route, true, true, &mut st);
     let code = match out {
         Outcome::Rejected(e) => {
             println!("the compiler rejects the design: {e}");
@@ -1443,7 +1895,7 @@ fn main() {
     let cap_s: u64 = (args.tier.pick(150.0, 1100.0) * vcore::budget_scale()) as u64;
     let results = vcore::par_for(nchunks, vcore::ncores(), |ci| {
         let mut st = Stats::default();
-        let mut viol: Vec<(String, String, usize, Value)> = vec![];
+        let mut viol: Vec<(String, String, usize, Route, Value)> = vec![];
         let mut samples: Vec<Value> = vec![];
         let mut rejected: Vec<(String, String)> = vec![];
         for (k, case) in cases[ci * chunk..((ci + 1) * chunk).min(cases.len())].iter().enumerate() {
@@ -1454,22 +1906,38 @@ fn main() {
             }
             let (d, opts) = build(case);
             let before = st.clone();
+            let routes = routes_of(&d);
+            if routes.len() == 1 {
+                st.designs_not_representable_in_glyphs += 1;
+            }
+            // finding classes of the UFO route: a Glyphs-route finding of the same class is the same
+            // failing feature and keeps the key; a finding of the Glyphs route alone names the route
+            let mut ufo_classes: BTreeSet<&'static str> = BTreeSet::new();
+            for route in routes {
             // skrifa second opinion on every 16th design
-            // (the static builds of the masters: designs of the cubic kind)
-            match judge(&d, &opts, idx % 16 == 5, case.kind == Kind::Cubic, &mut st) {
-                Outcome::Rejected(e) => rejected.push((case.label(), format!("error: {e}"))),
-                Outcome::Panicked(e) => rejected.push((case.label(), format!("panic: {e}"))),
+            // (the static builds of the masters: designs of the cubic kind, UFO route)
+            match judge(&d, &opts, route, idx % 16 == 5, case.kind == Kind::Cubic && route == Route::Ufo, &mut st) {
+                Outcome::Rejected(e) => rejected.push((format!("{} [{}]", case.label(), route.name()), format!("error: {e}"))),
+                Outcome::Panicked(e) => rejected.push((format!("{} [{}]", case.label(), route.name()), format!("panic: {e}"))),
                 Outcome::Judged(f) => {
                     let mut seen = BTreeSet::new();
                     for x in f {
-                        let key = format!("outline-mismatch:{}:{}:{}", case.kind.name(), case.fam.name(), x.class);
+                        let mut key = format!("outline-mismatch:{}:{}:{}", case.kind.name(), case.fam.name(), x.class);
+                        if case.upem != 1000 {
+                            key.push_str(&format!(":upem{}", case.upem));
+                        }
+                        if route == Route::Ufo {
+                            ufo_classes.insert(x.class);
+                        } else if !ufo_classes.contains(x.class) {
+                            key.push_str(&format!(":{}", route.name()));
+                        }
                         if seen.insert(key.clone()) {
                             // the replay (with the serialised design) is built by the main
                             // thread, for the first case of every key only
-                            viol.push((key, format!("[{}] {}", case.label(), x.what), idx, x.detail));
+                            viol.push((key, format!("[{}] [{}] {}", case.label(), route.name(), x.what), idx, route, x.detail));
                         }
                     }
-                    if idx % 997 == 3 && samples.len() < 2 {
+                    if route == Route::Ufo && idx % 997 == 3 && samples.len() < 2 {
                         samples.push(json!({
                             "case": case.label(),
                             "glyphs": d.glyphs.len(),
@@ -1481,6 +1949,7 @@ fn main() {
                     }
                 }
             }
+            }
         }
         (st, viol, samples, rejected)
     });
@@ -1491,10 +1960,10 @@ fn main() {
     let mut reported: BTreeSet<String> = BTreeSet::new();
     for (st, viol, s, rej) in results {
         add_stats(&mut total, &st);
-        for (k, w, idx, detail) in viol {
+        for (k, w, idx, route, detail) in viol {
             let replay = if reported.insert(k.clone()) {
                 let (d, opts) = build(&cases[idx]);
-                json!({"label": cases[idx].label(), "case": cases[idx], "opts": opts, "finding": detail, "design": serde_json::to_value(&d).unwrap()})
+                json!({"label": cases[idx].label(), "case": cases[idx], "opts": opts, "route": route, "finding": detail, "design": serde_json::to_value(&d).unwrap()})
             } else {
                 Value::Null
             };
